@@ -219,11 +219,8 @@ class EVPN(NLRI):
             sys_mac_addr, ld_value = esi_value["sys_mac_addr"], esi_value["ld_value"]
             sys_mac_hex = b''.join([struct.pack('!B', (int(i, 16))) for i in sys_mac_addr.split("-")])
             # ld_value_hex = ld_value.to_bytes(3, byteorder='big')
-            ld_value_hex = hex(ld_value).split('0x')[1]
-            len_ld_value = len(ld_value_hex)
-            if len_ld_value % 2 != 0:
-                ld_value_hex = '0' + ld_value_hex
-            ld_value_hex = binascii.a2b_hex(ld_value_hex)
+            # the local discriminator is a 3-octet field
+            ld_value_hex = struct.pack('!I', ld_value)[1:]
             esi_data_hex = b'\x03' + sys_mac_hex + ld_value_hex
 
         elif esi_type == bgp_cons.ESI_BGPNLRI_EVPN_TYPE_4:
